@@ -105,6 +105,9 @@ int ep_setup(Endpoint *ep, int side, Conn *c, const Plan *p, const CredSet *cs, 
 	if (!ep->conn) die("oom");
 	if (tls_init(ep->conn, &ep->ctx) != 1) return -1;
 	if (tls_set_socket(ep->conn, c->fd[side]) != 1) return -1;
+	net_guard_array(ep->conn->enced_record, sizeof(ep->conn->enced_record), "TLS_CONNECT.enced_record");
+	net_guard_array(ep->conn->record, sizeof(ep->conn->record), "TLS_CONNECT.record");
+	net_guard_array(ep->conn->databuf, sizeof(ep->conn->databuf), "TLS_CONNECT.databuf");
 	return 1;
 }
 
